@@ -43,10 +43,9 @@ impl Check for C07 {
                         if !v.unsupported() {
                             return Err((None, format!("{} fails on a supported value: {}", name, e)));
                         }
-                        if !documented_unsupported_message(&e) {
-                            return Err((None, format!("{} fails with an undocumented kind of error: {}", name, e)));
-                        }
-                        Ok("error-on-unsupported-shape")
+                        // the shape is known (from the type) to be one of the documented unsupported ones; the wording of
+                        // the error is the library's business and only tallied
+                        Ok(if documented_unsupported_message(&e) { "error-on-unsupported-shape" } else { "error-on-unsupported-shape (other wording)" })
                     }
                     Ok(text) => {
                         valid(&text).map_err(|e| (None, format!("{} output {:?} is {}", name, text, e)))?;
